@@ -52,7 +52,8 @@ def scratch_setup():
     that depends on the copy (sources symlinked, own target directory)."""
     sh(f"rm -rf {MUT}/repo {MUT}/sim {MUT}/out && mkdir -p {MUT}/repo {MUT}/sim/.cargo {MUT}/out")
     sh(f"rsync -a --exclude target --exclude .git /repo/ {MUT}/repo/")
-    sh(f"cp {D.SIM}/Cargo.lock {D.SIM}/rust-toolchain {MUT}/sim/ && ln -s {D.SIM}/src {MUT}/sim/src")
+    # a copy, not a link: the simulator's sources may be edited while a matrix runs
+    sh(f"cp {D.SIM}/Cargo.lock {D.SIM}/rust-toolchain {MUT}/sim/ && rsync -a {D.SIM}/src/ {MUT}/sim/src/")
     with open(f"{D.SIM}/Cargo.toml") as f:
         toml = f.read().replace('path = "/repo"', f'path = "{MUT}/repo"')
     with open(f"{MUT}/sim/Cargo.toml", "w") as f:
